@@ -1158,5 +1158,9 @@ func runC06(c *Ctx) error {
 			return err
 		}
 	}
-	return c06AllImpls(c)
+	if err := c06AllImpls(c); err != nil {
+		return err
+	}
+	// the less travelled ways in (c06doors.go)
+	return c06Doors(c)
 }
